@@ -400,3 +400,108 @@ func DescribeGuards(gs []Guard) string {
 	sort.Strings(s)
 	return strings.Join(s, " ∧ ")
 }
+
+// Rel is a branch outcome written as a relation "X Op Y" that HOLDS (the truth value is folded into the operator).
+type Rel struct {
+	X, Y ssa.Value
+	Op   token.Token
+}
+
+func negRel(op token.Token) token.Token {
+	switch op {
+	case token.EQL:
+		return token.NEQ
+	case token.NEQ:
+		return token.EQL
+	case token.LSS:
+		return token.GEQ
+	case token.GEQ:
+		return token.LSS
+	case token.GTR:
+		return token.LEQ
+	case token.LEQ:
+		return token.GTR
+	}
+	return token.ILLEGAL
+}
+
+func swapRel(op token.Token) token.Token {
+	switch op {
+	case token.LSS:
+		return token.GTR
+	case token.GTR:
+		return token.LSS
+	case token.LEQ:
+		return token.GEQ
+	case token.GEQ:
+		return token.LEQ
+	}
+	return op
+}
+
+// RelOf normalises a guard whose condition is a comparison (possibly negated) into the relation that holds.
+func RelOf(g Guard) (Rel, bool) {
+	v, neg := StripNot(g.Cond)
+	bo, ok := v.(*ssa.BinOp)
+	if !ok {
+		return Rel{}, false
+	}
+	op := bo.Op
+	switch op {
+	case token.EQL, token.NEQ, token.LSS, token.LEQ, token.GTR, token.GEQ:
+	default:
+		return Rel{}, false
+	}
+	if g.Truth == neg { // condition false (or negated condition true)
+		op = negRel(op)
+	}
+	return Rel{bo.X, bo.Y, op}, true
+}
+
+// Holds reports whether some guard implies "x op y", where same decides operand identity. Recognised implications:
+// the relation itself, its mirrored form (y op' x) and, against the integer constants 0/1, x > 0 <=> x >= 1.
+func Holds(gs []Guard, op token.Token, isX, isY func(ssa.Value) bool) bool {
+	for _, g := range gs {
+		r, ok := RelOf(g)
+		if !ok {
+			continue
+		}
+		if r.Op == op && isX(r.X) && isY(r.Y) {
+			return true
+		}
+		if swapRel(r.Op) == op && isX(r.Y) && isY(r.X) {
+			return true
+		}
+	}
+	return false
+}
+
+// ImpliesPositive reports whether some guard implies v > 0 (v >= 1, 0 < v, !(v <= 0), and v != 0 for unsigned v).
+func ImpliesPositive(gs []Guard, isV func(ssa.Value) bool) bool {
+	for _, g := range gs {
+		r, ok := RelOf(g)
+		if !ok {
+			continue
+		}
+		x, y, op := r.X, r.Y, r.Op
+		if !isV(x) && isV(y) {
+			x, y, op = y, x, swapRel(op)
+		}
+		if !isV(x) {
+			continue
+		}
+		k, isC := constInt(y)
+		if !isC {
+			continue
+		}
+		switch {
+		case op == token.GTR && k >= 0, op == token.GEQ && k >= 1:
+			return true
+		case op == token.NEQ && k == 0:
+			if b, ok := x.Type().Underlying().(*types.Basic); ok && b.Info()&types.IsUnsigned != 0 {
+				return true
+			}
+		}
+	}
+	return false
+}
